@@ -85,22 +85,29 @@ class ThreadingShim:
 
 class Scheduler:
     def __init__(self, cls, impl_getter):
-        self.cls = cls
+        """cls: the class (or classes) whose instances hold the shared state; impl_getter() -> the shared object, or a
+        list of shared objects, of the current execution"""
+        self.classes = list(cls) if isinstance(cls, (list, tuple, set)) else [cls]
+        self.cls = self.classes[0] if self.classes else None
         self.impl_getter = impl_getter
-        self.names = shared_names(cls)
+        self.names = set()
+        for c in self.classes:
+            self.names |= shared_names(c)
         self.codes = {}
-        for name, fn in vars(cls).items():
-            f = getattr(fn, '__func__', fn)
-            code = getattr(f, '__code__', None)
-            if code is not None and name != '__init__':
-                pts = {}
-                for ins in dis.get_instructions(code):
-                    if ins.opname in ('LOAD_ATTR', 'STORE_ATTR') and ins.argval in self.names:
-                        pts[ins.offset] = ('load' if ins.opname == 'LOAD_ATTR' else 'store', ins.argval)
-                    elif ins.opname in ('LOAD_GLOBAL', 'STORE_GLOBAL') and ('global:' + str(ins.argval)) in self.names:
-                        pts[ins.offset] = ('load' if ins.opname == 'LOAD_GLOBAL' else 'store', 'global:' + ins.argval)
-                if pts:
-                    self.codes[code] = pts
+        for c in self.classes:
+            for name, fn in vars(c).items():
+                f = getattr(fn, '__func__', fn)
+                f = getattr(f, 'fget', f) if isinstance(f, property) else f
+                code = getattr(f, '__code__', None)
+                if code is not None and name != '__init__':
+                    pts = {}
+                    for ins in dis.get_instructions(code):
+                        if ins.opname in ('LOAD_ATTR', 'STORE_ATTR') and ins.argval in self.names:
+                            pts[ins.offset] = ('load' if ins.opname == 'LOAD_ATTR' else 'store', ins.argval)
+                        elif ins.opname in ('LOAD_GLOBAL', 'STORE_GLOBAL') and ('global:' + str(ins.argval)) in self.names:
+                            pts[ins.offset] = ('load' if ins.opname == 'LOAD_GLOBAL' else 'store', 'global:' + ins.argval)
+                    if pts:
+                        self.codes[code] = pts
         self.cv = threading.Condition()
         self.shims = []           # cooperative locks created for / during the current execution
         self.reset()
@@ -125,13 +132,20 @@ class Scheduler:
             ev = self.trace[i]
             ev['v'] = self._read(ev['name'])
 
+    def _objs(self):
+        o = self.impl_getter()
+        return list(o) if isinstance(o, (list, tuple)) else [o]
+
     def _read(self, name):
-        impl = self.impl_getter()
         try:
             if name.startswith('global:'):
                 v = sys.modules[self.cls.__module__].__dict__.get(name[7:])
             else:
-                v = getattr(impl, name, None)
+                v = None
+                for o in self._objs():
+                    if hasattr(o, name):
+                        v = getattr(o, name, None)
+                        break
         except Exception:
             v = None
         return v if isinstance(v, int) and not isinstance(v, bool) else -9
@@ -160,7 +174,7 @@ class Scheduler:
         if self._me() is None:
             return None
         kind, name = p
-        if not name.startswith('global:') and not hasattr(self.impl_getter(), name):
+        if not name.startswith('global:') and not any(hasattr(o, name) for o in self._objs()):
             return None        # same attribute name on some thread-local object (e.g. response.data)
         self._yield((kind, name))
         # the access itself happens right after we return; log the value seen/stored afterwards via hooks
